@@ -130,10 +130,19 @@ def build(repo=REPO, verbose=True):
             shutil.rmtree(out, ignore_errors=True)
         os.rename(tmp, out)
         _prune(os.path.join(CACHE, "facts"), keep=int(os.environ.get("IWE_VERIF_CACHE_KEEP", "240")))
+        # build directories of scratch copies (one per scratch location, ~300 MB each): keep the most recently used few
+        _prune_targets(CACHE, keep=int(os.environ.get("IWE_VERIF_TARGET_KEEP", "10")))
         return out, sha, {"cached": False, "wall_s": round(time.time() - t0, 2)}
     finally:
         fcntl.flock(lock, fcntl.LOCK_UN)
         lock.close()
+
+
+def _prune_targets(cache, keep):
+    ents = [os.path.join(cache, n) for n in os.listdir(cache) if n.startswith("target-") and os.path.isdir(os.path.join(cache, n))]
+    ents.sort(key=os.path.getmtime, reverse=True)
+    for e in ents[keep:]:
+        shutil.rmtree(e, ignore_errors=True)
 
 
 def _prune(d, keep):
